@@ -216,4 +216,16 @@ CHECKS["C11"] = {
   "technique": "Coq proof (frame lemmas per operation, induction over operation histories; session isolation through a buffer-equality relation) + Q-executed model vs real objects after every operation (hashes, flags, exact change pattern, Wout/bias at 1e-9) + direct refit-vs-fresh oracle",
 }
 
+CHECKS["C06"] = {
+  "text": "Machine-checked theorems (coq/props/C06.v, closed under the global context): Model.fit executed with ANY staging accepted by the symbolic validity check gives every offline node the parameters of the explicit "
+          "node-by-node procedure (run upstream, fit the readout on its inputs with the same targets and warm-up, feed its predictions downstream), for any node types, any learner and any data (free-algebra symbolic execution + "
+          "homomorphism lemma); the staging computed by the faithful model of get_offline_subgraphs/_get_required_nodes/_get_links terminates and is valid for every DAG with <= 5 nodes in the supported class (vm_compute, bound "
+          "stated in the theorem) and is re-validated for every scenario of every run; Model.train equals the explicit per-timestep loop with updates exactly on i mod learn_every = 0 and pre-update outputs; array and mapping data "
+          "reach both procedures as the same mappings; the pre-fix learn_every gate and four open staging defects are refuted by witnesses. The Q-instantiated model (Kinds.kfwd, Ridge.fit with qsolve, Online rls/lms) is compared "
+          "with real models (chains, deep models, shortcuts, parallel readouts, ESN node, multi-sequence, warm-up, array/mapping data) on every run; an oracle runs the explicit procedure with the real nodes.",
+  "note": "Staging validity is proved only up to 5 nodes plus per instance (the general statement is kept as a Definition); ESN.fit and the stepwise-vs-nodewise equivalence of the forward sub-model run are decided by "
+          "correspondence and oracle only; four open staging defects (fit-staging:*) outside the supported class are mirrored, refuted in Coq and reproduced on the real code. Trusted: Coq kernel, coq/model/FitSem.v, tools/props/c06.py.",
+  "technique": "Coq proof (free-algebra symbolic execution + homomorphism lemma; bounded vm_compute sweep over all DAGs <= 5 nodes) + Q-model correspondence + real-node oracle",
+}
+
 NOT_YET = {}
